@@ -113,7 +113,8 @@ func (p *c11) Bounds(tier string) map[string]interface{} {
 	return map[string]interface{}{"expression_length": c11L(tier), "valid_expression_length": c11LValid(tier), "full_load_length": 4, "alphabet": c11Tokens, "assignments": 8, "placements": c11Places, "deviations": len(c11Deviations())}
 }
 
-var c11Places = []string{"leaf", "container", "list", "leaf-list", "choice", "case", "uses", "augment", "uses-augment", "refine", "two-if-features", "anydata", "rpc", "notification"}
+var c11Places = []string{"leaf", "container", "list", "leaf-list", "choice", "case", "uses", "augment", "uses-augment", "refine", "two-if-features", "anydata", "rpc", "notification",
+	"case-in-augment", "leaf-in-augment-of-choice", "case-in-uses-augment", "case-in-grouping", "leaf-in-grouping", "action", "action-in-grouping", "notification-in-grouping", "leaf-in-submodule", "augment-in-submodule", "features-in-submodule", "both-in-submodule", "uses-in-augment", "uses-in-case", "choice-in-case", "action-in-augment", "notification-in-augment", "action-in-uses-augment", "notification-in-uses-augment", "action-in-submodule", "leaf-in-rpc-input", "leaf-in-notification", "leaf-in-action-output"}
 
 func (p *c11) Cases(tier string, emit func(interface{})) {
 	L := c11L(tier)
@@ -147,6 +148,7 @@ func (p *c11) Cases(tier string, emit func(interface{})) {
 		emit(c11Case{Part: "place", Place: pl})
 	}
 	emit(c11Case{Part: "names"})
+	emit(c11Case{Part: "two-modules"})
 	for i := range c11Deviations() {
 		emit(c11Case{Part: "deviation", Idx: i})
 	}
@@ -356,21 +358,68 @@ func c11Load(text string, fs meta.FeatureSet, mods map[string]string) (m *meta.M
 const c11Hdr = `module f { namespace "urn:f"; prefix f; revision 0; feature a; feature b; feature c; `
 
 // guarded statement templates: %s = if-feature statement(s); presence is probed at the path
-var c11Templates = map[string]struct{ text, probe string }{
-	"leaf":            {`leaf x { %s type string; } leaf keep { type string; } }`, "x"},
-	"container":       {`container x { %s leaf y { type string; } } leaf keep { type string; } }`, "x"},
-	"list":            {`list x { %s key k; leaf k { type string; } } leaf keep { type string; } }`, "x"},
-	"leaf-list":       {`leaf-list x { %s type string; } leaf keep { type string; } }`, "x"},
-	"choice":          {`choice x { %s case k { leaf y { type string; } } } leaf keep { type string; } }`, "x"},
-	"case":            {`choice ch { case x { %s leaf y { type string; } } case k { leaf z { type string; } } } leaf keep { type string; } }`, "ch/x"},
-	"uses":            {`grouping g { leaf x { type string; } } container u { uses g { %s } leaf keep { type string; } } }`, "u/x"},
-	"augment":         {`container u { leaf keep { type string; } } augment "/u" { %s leaf x { type string; } } }`, "u/x"},
-	"uses-augment":    {`grouping g { container gc { leaf keep { type string; } } } container u { uses g { augment gc { %s leaf x { type string; } } } } }`, "u/gc/x"},
-	"refine":          {`grouping g { leaf x { type string; } leaf keep { type string; } } container u { uses g { refine x { %s description "refined"; } refine keep { description "also"; } } } }`, "refine"},
-	"two-if-features": {`leaf x { %s type string; } leaf keep { type string; } }`, "x"},
-	"anydata":         {`anydata x { %s } leaf keep { type string; } }`, "x"},
-	"rpc":             {`rpc x { %s } leaf keep { type string; } }`, "x"},
-	"notification":    {`notification x { %s } leaf keep { type string; } }`, "x"},
+type c11Template struct {
+	text, probe string
+	// sub: body of a submodule "fsub" the module includes (%s = guard there instead of in text);
+	// subFeatures: the features a, b, c are defined in the submodule rather than in the module.
+	sub         string
+	subFeatures bool
+}
+
+// c11Render builds the module (and submodule) text of a placement with the guard statement stmt.
+func c11Render(tp c11Template, stmt string) (string, map[string]string) {
+	if tp.sub == "" {
+		return c11Hdr + strings.Replace(tp.text, "%s", stmt, 1), nil
+	}
+	feats := "feature a; feature b; feature c; "
+	hdr := `module f { namespace "urn:f"; prefix f; include fsub; revision 0; `
+	subHdr := `submodule fsub { belongs-to f { prefix f; } `
+	if tp.subFeatures {
+		subHdr += feats
+	} else {
+		hdr += feats
+	}
+	return hdr + strings.Replace(tp.text, "%s", stmt, 1), map[string]string{"fsub": subHdr + strings.Replace(tp.sub, "%s", stmt, 1) + "}"}
+}
+
+var c11Templates = map[string]c11Template{
+	"leaf":            {text: `leaf x { %s type string; } leaf keep { type string; } }`, probe: "x"},
+	"container":       {text: `container x { %s leaf y { type string; } } leaf keep { type string; } }`, probe: "x"},
+	"list":            {text: `list x { %s key k; leaf k { type string; } } leaf keep { type string; } }`, probe: "x"},
+	"leaf-list":       {text: `leaf-list x { %s type string; } leaf keep { type string; } }`, probe: "x"},
+	"choice":          {text: `choice x { %s case k { leaf y { type string; } } } leaf keep { type string; } }`, probe: "x"},
+	"case":            {text: `choice ch { case x { %s leaf y { type string; } } case k { leaf z { type string; } } } leaf keep { type string; } }`, probe: "ch/x"},
+	"uses":            {text: `grouping g { leaf x { type string; } } container u { uses g { %s } leaf keep { type string; } } }`, probe: "u/x"},
+	"augment":         {text: `container u { leaf keep { type string; } } augment "/u" { %s leaf x { type string; } } }`, probe: "u/x"},
+	"uses-augment":    {text: `grouping g { container gc { leaf keep { type string; } } } container u { uses g { augment gc { %s leaf x { type string; } } } } }`, probe: "u/gc/x"},
+	"refine":          {text: `grouping g { leaf x { type string; } leaf keep { type string; } } container u { uses g { refine x { %s description "refined"; } refine keep { description "also"; } } } }`, probe: "refine"},
+	"two-if-features": {text: `leaf x { %s type string; } leaf keep { type string; } }`, probe: "x"},
+	"anydata":         {text: `anydata x { %s } leaf keep { type string; } }`, probe: "x"},
+	"rpc":             {text: `rpc x { %s } leaf keep { type string; } }`, probe: "x"},
+	"notification":    {text: `notification x { %s } leaf keep { type string; } }`, probe: "x"},
+	"case-in-augment":           {text: `choice ch { case k { leaf z { type string; } } } leaf keep { type string; } augment "/ch" { case x { %s leaf y { type string; } } } }`, probe: "ch/x"},
+	"leaf-in-augment-of-choice": {text: `choice ch { case k { leaf z { type string; } } } leaf keep { type string; } augment "/ch" { leaf x { %s type string; } } }`, probe: "ch/x"},
+	"case-in-uses-augment":      {text: `grouping g { choice ch { case k { leaf z { type string; } } } } container u { uses g { augment ch { case x { %s leaf y { type string; } } } } leaf keep { type string; } } }`, probe: "u/ch/x"},
+	"case-in-grouping":          {text: `grouping g { choice ch { case x { %s leaf y { type string; } } case k { leaf z { type string; } } } } container u { uses g; leaf keep { type string; } } }`, probe: "u/ch/x"},
+	"leaf-in-grouping":          {text: `grouping g { container gc { leaf x { %s type string; } leaf keep { type string; } } } container u { uses g; } }`, probe: "u/gc/x"},
+	"action":                    {text: `container u { action x { %s } leaf keep { type string; } } }`, probe: "u/x"},
+	"action-in-grouping":        {text: `grouping g { action x { %s } leaf keep { type string; } } container u { uses g; } }`, probe: "u/x"},
+	"notification-in-grouping":  {text: `grouping g { notification x { %s } leaf keep { type string; } } container u { uses g; } }`, probe: "u/x"},
+	"leaf-in-submodule":         {text: `leaf keep { type string; } }`, probe: "x", sub: `leaf x { %s type string; } `},
+	"augment-in-submodule":      {text: `container u { leaf keep { type string; } } }`, probe: "u/x", sub: `augment "/u" { %s leaf x { type string; } } `},
+	"features-in-submodule":     {text: `leaf x { %s type string; } leaf keep { type string; } }`, probe: "x", sub: `leaf subkeep { type string; } `, subFeatures: true},
+	"both-in-submodule":         {text: `leaf keep { type string; } }`, probe: "x", sub: `leaf x { %s type string; } `, subFeatures: true},
+	"action-in-augment":            {text: `container u { leaf keep { type string; } } augment "/u" { action x { %s } } }`, probe: "u/x"},
+	"notification-in-augment":      {text: `container u { leaf keep { type string; } } augment "/u" { notification x { %s } } }`, probe: "u/x"},
+	"action-in-uses-augment":       {text: `grouping g { container gc { leaf keep { type string; } } } container u { uses g { augment gc { action x { %s } } } } }`, probe: "u/gc/x"},
+	"notification-in-uses-augment": {text: `grouping g { container gc { leaf keep { type string; } } } container u { uses g { augment gc { notification x { %s } } } } }`, probe: "u/gc/x"},
+	"action-in-submodule":          {text: `leaf keep { type string; } }`, probe: "x", sub: `rpc x { %s } `},
+	"leaf-in-rpc-input":            {text: `rpc r { input { leaf x { %s type string; } leaf keep { type string; } } } }`, probe: "r/input/x"},
+	"leaf-in-action-output":        {text: `container u { action r { output { leaf x { %s type string; } leaf keep { type string; } } } } }`, probe: "u/r/output/x"},
+	"leaf-in-notification":         {text: `notification n { leaf x { %s type string; } leaf keep { type string; } } }`, probe: "n/x"},
+	"uses-in-augment":           {text: `grouping g { leaf x { type string; } } container u { leaf keep { type string; } } augment "/u" { uses g { %s } } }`, probe: "u/x"},
+	"uses-in-case":              {text: `grouping g { leaf x { type string; } } choice ch { case k { uses g { %s } leaf keep { type string; } } } }`, probe: "ch/k/x"},
+	"choice-in-case":            {text: `choice ch { case k { choice x { %s leaf y { type string; } } leaf keep { type string; } } } }`, probe: "ch/k/x"},
 }
 
 func c11Probe(m *meta.Module, place string) (present bool, extra string) {
@@ -557,7 +606,7 @@ func (p *c11) Run(raw json.RawMessage) eng.Result {
 				stmt += ` if-feature "c";`
 				truth = func(on map[string]bool) bool { return ref.eval(on) && on["c"] }
 			}
-			text := c11Hdr + fmt.Sprintf(tp.text, stmt)
+			text, mods := c11Render(tp, stmt)
 			for _, on := range assigns {
 				for _, cfg := range []string{"allow-list", "deny-list"} {
 					var fs meta.FeatureSet
@@ -566,7 +615,7 @@ func (p *c11) Run(raw json.RawMessage) eng.Result {
 					} else {
 						fs = meta.FeaturesOff(offList(on))
 					}
-					m, err, fr, msg := c11Load(text, fs, nil)
+					m, err, fr, msg := c11Load(text, fs, mods)
 					res.Evals++
 					res.Nontriv++
 					site := "C11/if-feature/on-" + c.Place + "/" + cfg
@@ -588,7 +637,8 @@ func (p *c11) Run(raw json.RawMessage) eng.Result {
 			}
 		}
 		// all features on by default
-		m, err, fr, _ := c11Load(c11Hdr+fmt.Sprintf(tp.text, `if-feature "a and not b";`), nil, nil)
+		dtext, dmods := c11Render(tp, `if-feature "a and not b";`)
+		m, err, fr, _ := c11Load(dtext, nil, dmods)
 		if fr == "" && err == nil {
 			if present, _ := c11Probe(m, c.Place); present {
 				ss.add("C11/if-feature/on-"+c.Place+"/default-all-on/present-true-want-false", `"a and not b" with every feature on`)
@@ -597,6 +647,8 @@ func (p *c11) Run(raw json.RawMessage) eng.Result {
 		res.Outcomes = []string{"place:" + c.Place}
 	case "names":
 		c11Names(&res, ss)
+	case "two-modules":
+		c11TwoModules(&res, ss)
 	case "deviation":
 		c11RunDeviation(c.Idx, &res, ss)
 	}
@@ -663,6 +715,70 @@ func c11Names(res *eng.Result, ss *sigSet) {
 		default:
 			if present, _ := c11ProbePath(m, "x"); present != t.want {
 				ss.add(site+fmt.Sprintf("/present-%v-want-%v", present, t.want), t.text)
+			}
+		}
+	}
+}
+
+// c11TwoModules: a module and the module it imports each define features a, b, c (b optionally depending
+// on a) and each guards a leaf; every pair of expressions of <= 3 tokens x every assignment x
+// allow-list/deny-list: each leaf is present exactly when its expression holds for its own module's features.
+func c11TwoModules(res *eng.Result, ss *sigSet) {
+	var exprs [][]string
+	for l := 1; l <= 3; l++ {
+		exprs = append(exprs, c11ValidExprs(l)...)
+	}
+	feat := func(bDepends bool) string {
+		if bDepends {
+			return "feature a; feature b { if-feature a; } feature c; "
+		}
+		return "feature a; feature b; feature c; "
+	}
+	for bdep := 0; bdep < 4; bdep++ {
+		mainDep, impDep := bdep&1 != 0, bdep&2 != 0
+		for _, em := range exprs {
+			for _, ei := range exprs {
+				text := `module f { namespace "urn:f"; prefix f; import dep { prefix d; } revision 0; ` + feat(mainDep) + `leaf x { if-feature "` + joinExpr(em) + `"; type string; } leaf keep { type string; } }`
+				mods := map[string]string{"dep": `module dep { namespace "urn:dep"; prefix d; revision 0; ` + feat(impDep) + `leaf x { if-feature "` + joinExpr(ei) + `"; type string; } leaf keep { type string; } }`}
+				rm, ri := c11Parse(em), c11Parse(ei)
+				for _, on := range c11Assignments() {
+					for _, cfg := range []string{"allow-list", "deny-list"} {
+						var fs meta.FeatureSet
+						if cfg == "allow-list" {
+							fs = meta.FeaturesOn(onList(on))
+						} else {
+							fs = meta.FeaturesOff(offList(on))
+						}
+						eff := func(depends bool) map[string]bool {
+							e := map[string]bool{"a": on["a"], "b": on["b"], "c": on["c"]}
+							if depends && !e["a"] {
+								e["b"] = false
+							}
+							return e
+						}
+						m, err, fr, msg := c11Load(text, fs, mods)
+						res.Evals++
+						res.Nontriv++
+						site := fmt.Sprintf("C11/if-feature/two-modules/%s/b-depends-on-a:module=%v,import=%v", cfg, mainDep, impDep)
+						what := fmt.Sprintf("module %q, import %q, enabled %v", joinExpr(em), joinExpr(ei), onList(on))
+						switch {
+						case fr != "":
+							ss.add(site+"/panic:"+fr, what+": "+msg)
+						case err != nil:
+							ss.add(site+"/load-error", what+": "+err.Error())
+						default:
+							if present, _ := c11ProbePath(m, "x"); present != rm.eval(eff(mainDep)) {
+								ss.add(site+fmt.Sprintf("/module-leaf-present-%v-want-%v", present, !present), what)
+							}
+							imp := m.Imports()["d"]
+							if imp == nil || imp.Module() == nil {
+								ss.add(site+"/import-not-loaded", what)
+							} else if present, _ := c11ProbePath(imp.Module(), "x"); present != ri.eval(eff(impDep)) {
+								ss.add(site+fmt.Sprintf("/import-leaf-present-%v-want-%v", present, !present), what)
+							}
+						}
+					}
+				}
 			}
 		}
 	}
